@@ -31,6 +31,10 @@ def plan(tier, seed):
     per = 16 if tier == "quick" else 125
     nops = 12 if tier == "quick" else 40
     units = [{"lo": lo, "hi": min(n, lo + per), "nops": nops} for lo in range(0, n, per)]
+    # the same, on targets that have just been given the schema-permitted children python-pptx never writes but PowerPoint does
+    # (profile 'sat': ops.sat_select / ops.op_saturate, donors from vlib/instgen.py; a valid start stays valid under them)
+    m = 64 if tier == "quick" else 3000
+    units += [{"lo": lo, "hi": min(n + m, lo + per), "nops": nops, "profile": "sat"} for lo in range(n, n + m, per)]
     units += [{"kind": "rejected", "shard": i, "of": 8} for i in range(8)]
     return units
 
@@ -95,7 +99,7 @@ def run_unit(unit, tier, seed, acc):
 
     if unit.get("kind") == "rejected":
         return run_rejected(unit, tier, seed, acc)
-    histories.run_histories("xml", {"C03"}, unit, tier, seed, acc, save_every=None)
+    histories.run_histories(unit.get("profile", "xml"), {"C03"}, unit, tier, seed, acc, save_every=None)
 
 
 def replay(w, acc):
